@@ -791,8 +791,8 @@ def run_c02(ctx, tier=None, seed=None):
 
 
 spec('C02', run=run_c02, search=None,
-     rule='one probe function per (form, class pair): 22 forms (+ − % += −= %= == < partial_cmp Ord::max let-binding hypot atan2 new::<foreign> get::<foreign> into_format_args(foreign) format_args(foreign).with floor::<foreign> From/Into saturating_add saturating_sub Sum) × '
-          '400 seeded + all same-dimension-different-kind ordered pairs of the (dimension, kind) classes of the SI (thorough: all pairs), 25 forms on every class with itself '
+     rule='one probe function per (form, class pair): 26 forms (+ − % += −= %= == < partial_cmp Ord::max let-binding hypot atan2 new::<foreign> get::<foreign> into_format_args(foreign) format_args(foreign).with floor::<foreign> From/Into saturating_add saturating_sub Sum, and the by-reference forms a + &b, a − &b, a += &b, slice.iter().sum()) × '
+          '400 seeded + all same-dimension-different-kind ordered pairs of the (dimension, kind) classes of the SI (thorough: all pairs), 29 forms on every class with itself '
           '(positive controls, marker-dependent forms, sqrt/cbrt/neg), same-type-different-module pairs; rustc’s verdict per function (primary error span → function) compared '
           'with the acceptance relation; 24 mixed-base programs (all operator forms, hypot, mul_add, temperature arithmetic, kind conversions) under autoconvert on/off; non-trivial: the two types differ',
      trusted_base=['rustc is the implementation under test; a probe is “rejected” when an error’s primary span lies in its line'],
